@@ -20,6 +20,7 @@ func main() { hx.Main(run) }
 
 func run(c *hx.Ctx) {
 	c.Imports = "Enc.Run"
+	c.ShardSize = 40
 	switch c.Prop {
 	case "C12":
 		c12(c)
